@@ -273,7 +273,7 @@ func propC03() *PropSpec {
 		ID:   "C03",
 		Rule: "one case = one feasible path of html.Minify (real parse/v2/html lexer, TokenBuffer, tables, EscapeAttrVal, entity replacement) on a template with symbolic holes + reference start-tag tokenizer / character-reference decoder / rendered-word-stream oracle; non-trivial = completes with a distinct symbolic output",
 		Assumptions: []string{"templates: <tag attr=QVQ>t ; T1<X>T2</X>T3 (inside the parent its content model requires) ; <pre>/<textarea>", "hole alphabets as stated in harness/html/*.go; named references restricted to amp lt gt quot apos", "empty registry (embedded CSS/JS is only trimmed)", "word-stream oracle: inline boundaries transparent, block boundaries and <br> separate, img/button are objects"},
-		Outside:     []string{"full HTML5 tree construction (adoption agency, foster parenting, optional start tags, tables): only the rendered-word-stream and attribute clauses are decided", "optional-tag omission contexts beyond one element inside its parent", "documents beyond the templates", "template delimiters"},
+		Outside:     []string{"full HTML5 tree construction (adoption agency, foster parenting, optional start tags, tables): the reference tree builder covers body/div/p/h1/ul/li/dl/dt/dd/span/ruby/rt/rp only", "trees of more than n build actions", "documents beyond the templates", "template delimiters"},
 		Stubs:       []string{"fmt native on concrete args", "parse.NewError opaque"},
 		Jobs: func(tier string) []Job {
 			var js []Job
@@ -289,6 +289,7 @@ func propC03() *PropSpec {
 			js = append(js, jobsN("html", "VerifHTMLAttrURL", pick(rng(4, 5), rng(4, 7)), "URL attributes: scheme handling")...)
 			js = append(js, jobsN("html", "VerifHTMLText", pick(rng(1, 2), rng(1, 2)), "T1<X>T2</X>T3 for 13 element kinds, KeepWhitespace/KeepEndTags symbolic: rendered word sequence")...)
 			js = append(js, jobsN("html", "VerifHTMLPre", pick(rng(0, 3), rng(0, 5)), "pre/textarea content untouched")...)
+			js = append(js, jobsN("html", "VerifHTMLTree", pick(rng(1, 4), rng(1, 5)), "conforming trees built by n symbolic actions over 13 element kinds + text + comments; reference tree builder on input and output")...)
 			js = append(js, Job{Pkg: "html", Fn: "VerifHTMLTwin", N: 0, ExpectFail: true, Desc: "vacuity twin"})
 			return js
 		},
